@@ -332,7 +332,7 @@ pub fn expected_handlers(exp: &Expect) -> Option<Vec<String>> {
 
 pub const SENTINEL: &str = r#"{"jsonrpc":"2.0","id":"__sentinel__","method":"add","params":[20,22]}"#;
 
-fn is_sentinel_reply(f: &[u8]) -> bool {
+pub fn is_sentinel_reply(f: &[u8]) -> bool {
 	serde_json::from_slice::<Value>(f).map_or(false, |v| v["id"] == "__sentinel__")
 }
 
